@@ -7,9 +7,12 @@ sys.path.insert(0, os.path.join(ROOT, "lib")); sys.path.insert(0, ROOT)
 ALL = ["C%02d" % i for i in range(1, 21)]
 checks, na, served = [], [], []
 hooks = json.load(open(os.path.join(ROOT, "hooks.json"))) if os.path.exists(os.path.join(ROOT, "hooks.json")) else {"source_commits": []}
+import subprocess
+tracked = set(subprocess.run(["git", "-C", ROOT, "ls-files", "props"], stdout=subprocess.PIPE, text=True).stdout.split())
 for pid in ALL:
     f = os.path.join(ROOT, "props", pid.lower() + ".py")
-    if not os.path.exists(f):
+    # a check is claimed only once its plugin is committed (several people build checks side by side)
+    if not os.path.exists(f) or ("props/%s.py" % pid.lower()) not in tracked:
         na.append({"property_id": pid, "reason": "check not built yet (the design in DESIGN.md §3 applies; no technique switch)"})
         continue
     P = importlib.import_module("props." + pid.lower()).PROP
